@@ -539,6 +539,47 @@ pub fn search_stream(args: &[String]) {
                 }
             }
         }
+        "minelost" => {
+            // exploration aid (not part of any check): bare king to move against heavy pieces; report searches whose answer
+            // allows a mate in one although another legal move does not
+            let mut tried = 0u64;
+            let mut hits = 0u64;
+            while (tried as usize) < count {
+                let Some(mut b) = random_profile(&mut rng, 3) else { continue };
+                tried += 1;
+                if (tried as usize) % of != shard {
+                    continue;
+                }
+                let legal = b.get_legal_moves();
+                let mut unsafe_moves = vec![];
+                let mut safe = 0;
+                for m in &legal {
+                    b.make_move(*m);
+                    let bad = !mates_in_one(&mut b).is_empty();
+                    b.unmake_move();
+                    if bad { unsafe_moves.push(*m) } else { safe += 1 }
+                }
+                if unsafe_moves.is_empty() || safe == 0 {
+                    continue;
+                }
+                let fen = render_fen(&b);
+                for d in 1..=maxdepth {
+                    TRANSPOSITION_TABLE.write().unwrap().clear();
+                    *sv::RECORDER.lock().unwrap() = None;
+                    sv::STOP_AT_POLL.store(u64::MAX, Ordering::Relaxed);
+                    let mut s = Search::new(&b, Some(SearchLimits::new().depth(Some(d))));
+                    s.search(&SimpleEvaluator, Some(d));
+                    sv::STOP_AT_POLL.store(0, Ordering::Relaxed);
+                    if let Some(bm) = sv::best_move(&s) {
+                        if unsafe_moves.iter().any(|u| u.to_notation() == bm.to_notation()) {
+                            hits += 1;
+                            println!("HIT depth={d} fen=[{fen}] chosen={} safe_moves={safe} unsafe={}", bm.to_notation(), unsafe_moves.len());
+                        }
+                    }
+                }
+            }
+            println!("MINED tried={tried} hits={hits}");
+        }
         "game" => {
             // a game as a GUI plays it: search, play the answer, a random reply, search again — the cache is kept throughout
             let plies: usize = arg(args, "plies", 8);
@@ -710,6 +751,28 @@ fn random_profile(rng: &mut Rng, profile: u8) -> Option<Board> {
             }
         }
     };
+    if profile == 3 {
+        // a bare king to move against two or three heavy pieces: usually lost in a move or two, with some moves losing at once
+        // and others a move later (mate scores of different lengths meet in the cache)
+        let white_bare = rng.below(2) == 0;
+        let heavy: &[char] = match rng.below(4) {
+            0 => &['q', 'r'],
+            1 => &['r', 'r'],
+            2 => &['q', 'q'],
+            _ => &['q', 'r', 'b'],
+        };
+        place(&mut grid, 'K', None);
+        place(&mut grid, 'k', None);
+        for c in heavy {
+            place(&mut grid, if white_bare { *c } else { c.to_ascii_uppercase() }, None);
+        }
+        let fen = format!("{} {} - - 0 1", grid_placement(&grid), if white_bare { "w" } else { "b" });
+        let b = Board::from_fen(&fen);
+        if b.is_in_check(b.current_turn.opposite()) {
+            return None;
+        }
+        return Some(b);
+    }
     if profile == 1 {
         for c in ['K', 'k', 'Q', 'Q', 'q', 'q'] {
             place(&mut grid, c, None);
@@ -757,9 +820,15 @@ fn mate_mode(rng: &mut Rng, count: usize, maxdepth: u8, shard: usize, of: usize,
     let mut per_cat = [0usize; 3];
     while found < count && tries < 2_000_000 {
         tries += 1;
-        // half from sparse random positions, half from random play out of the seeds
-        let mut b = if rng.below(2) == 0 {
+        // a third from sparse random positions, a third bare king vs heavy pieces, a third from random play out of the seeds
+        let src = rng.below(3);
+        let mut b = if src == 0 {
             match random_sparse(rng) {
+                Some(b) => b,
+                None => continue,
+            }
+        } else if src == 1 {
+            match random_profile(rng, 3) {
                 Some(b) => b,
                 None => continue,
             }
